@@ -121,7 +121,7 @@ def cpr(lat, lon, odd, surface):
 
 # ------------------------------------------------------------------ concrete records
 
-ADDR = [0x4840D6, 0x3C6589, 0xA1B2C3, 0x06A0F1, 0x7C1234, 0xE48D9B]
+ADDR = [0x4840D6, 0x3C6589, 0xA1B2C3, 0x06A0F1, 0x7C1234, 0x000000]     # aircraft 6: the all-zero address
 REF = (43.60, 1.40)
 
 
